@@ -602,7 +602,7 @@ Theorem read_version_rule : forall ops1 i ops2,
   (active s t -> read_version s t <> None).
 Proof.
   intros ops1 i ops2 s1 t s. split; [reflexivity|]. split.
-  - intros y Hy. pose proof (inv_grun ops1) as I.
+  - intros y Hy. pose proof Hy as Hy0. pose proof (inv_grun ops1) as I. rewrite fst_grun in I.
     unfold s in Hy. rewrite run_app in Hy. cbn [run_from fold_left] in Hy.
     change (fold_left (fun s o => fst (step s o)) ops2 (fst (step (run ops1) (Begin i))))
       with (run_from (fst (step (run ops1) (Begin i))) ops2) in Hy.
@@ -612,7 +612,7 @@ Proof.
     { cbn. fold s1. unfold t. lia. }
     cbn in Hx. fold s1 in Hx. rewrite lookup_set in Hx. fold t in Hx. rewrite N.eqb_refl in Hx.
     injection Hx as <-. cbn in Hi, Hs.
-    unfold read_version. fold s. rewrite Hy, Hi, Hs. reflexivity.
+    unfold read_version. rewrite Hy0, Hi, Hs. reflexivity.
   - intros [x [Hx _]]. unfold read_version. rewrite Hx. discriminate.
 Qed.
 
@@ -635,13 +635,15 @@ Proof.
   - exists []. cbn. split; auto. split; [intros c []|lia].
   - unfold grun_from in *. cbn [fold_left].
     destruct (IH (gstep sg o)) as [gn [Hg [Hv Hc]]].
-    unfold gstep in Hg, Hv, Hc; cbn [fst snd] in Hg, Hv, Hc.
+    assert (fst (gstep sg o) = fst (step (fst sg) o)) as E1 by reflexivity.
+    assert (snd (gstep sg o) = log_step (fst sg) (snd sg) o) as E2 by reflexivity.
+    rewrite E1 in Hv, Hc. rewrite E2 in Hg.
     pose proof (step_cur (fst sg) o) as [Hle _].
     destruct (log_step_shape (fst sg) (snd sg) o) as [E|[c [E Hcv]]]; rewrite E in Hg.
-    + exists gn. split; auto. split; [|unfold gstep; cbn [fst]; lia].
+    + exists gn. split; auto. split; [|lia].
       intros c Hc'. apply Hv in Hc'. lia.
     + exists (gn ++ [c]). rewrite <- app_assoc. cbn [app]. split; auto.
-      split; [|unfold gstep; cbn [fst]; lia].
+      split; [|lia].
       intros c' Hc'. apply in_app_or in Hc'. destruct Hc' as [Hc'|[<-|[]]]; [apply Hv in Hc'; lia|lia].
 Qed.
 
@@ -708,6 +710,6 @@ Proof.
   induction 1 as [ss Hf|ss1 s ss2 x l Hm IH]; intros y.
   - split; [intros []|]. rewrite in_concat. intros [s [Hs Hy]].
     rewrite Forall_forall in Hf. rewrite (Hf s Hs) in Hy. destruct Hy.
-  - specialize (IH y). rewrite concat_app in *. cbn [concat In] in *.
-    rewrite in_app_iff in *. cbn [In]. rewrite in_app_iff in *. tauto.
+  - specialize (IH y). rewrite !concat_app in *. cbn [concat] in *.
+    rewrite !in_app_iff in *. cbn [In]. tauto.
 Qed.
